@@ -519,6 +519,11 @@ func (g *Gen) emit(t *TxSpec) int {
 			t.Fee2Den, t.Fee2Amt = "uatom", "50"
 		}
 	}
+	if t.Timeout == 0 && t.ReplayOf == 0 && g.rng.Chance(0.03) {
+		// a timeout height: already passed when the transaction makes it into a block (refused by every node, with the same
+		// result everywhere), or still ahead
+		t.Timeout = []int{-1, -1, -3, 1, 10}[g.rng.Intn(5)]
+	}
 	if t.Granter == "" && t.ReplayOf == 0 && g.rng.Chance(map[bool]float64{true: 0.08, false: 0.015}[g.prop == "C15"]) {
 		// the fee_granter field: another account is asked to pay the fee - one of the transaction's other signers (the
 		// writer of a sponsored append), or anybody. No allowance has been granted, so the transaction must be refused.
@@ -918,6 +923,10 @@ func (g *Gen) didDoc(did string, keys []int, style int) *DocSpec {
 	}
 	if r.Chance(0.3) {
 		d.Contexts = []string{w3cContext, "https://example.org/ctx/v1"}
+		if r.Chance(0.4) {
+			// several more contexts, in no particular order (the order is part of the document)
+			d.Contexts = append(d.Contexts, "https://w3id.org/security/suites/secp256k1-2019/v1", "https://a.example/first", "https://example.org/ctx/v0")[:r.Range(3, 5)]
+		}
 	}
 	if r.Chance(0.2) {
 		d.Controller = []string{did}
@@ -930,6 +939,12 @@ func (g *Gen) didDoc(did string, keys []int, style int) *DocSpec {
 	}
 	if r.Chance(0.3) {
 		d.Services = []SvcSpec{{Id: "svc1", Type: "LinkedDomains", Endpoint: "https://example.org"}}
+		if r.Chance(0.4) {
+			// a longer service list, in no particular order, possibly with an id declared twice (nothing forbids it)
+			for i := r.Range(2, 6); i > 0; i-- {
+				d.Services = append(d.Services, SvcSpec{Id: fmt.Sprintf("svc%d", r.Intn(5)), Type: []string{"LinkedDomains", "DIDCommMessaging"}[r.Intn(2)], Endpoint: fmt.Sprintf("https://e%d.example", r.Intn(9))})
+			}
+		}
 	}
 	if r.Chance(0.3) { // keys under other relationships only
 		k := r.Intn(NumDidKeys)
@@ -1127,7 +1142,28 @@ func (g *Gen) famDidAdv() {
 	upd := func(p *ProofSpec, doc *DocSpec) {
 		g.tx(MsgSpec{T: "did.Update", F: map[string]string{"did": did, "from": from}, Doc: doc, Proof: p})
 	}
-	switch r.Intn(28) {
+	switch r.Intn(30) {
+	case 28, 29: // a DID that names another DID as its controller: the controller's keys are not keys of this DID
+		ci := (k + 6) % NumDidKeys
+		ctl := g.env.Dids[ci]
+		doc := g.didDoc(did, []int{k}, 0)
+		doc.Controller = []string{ctl}
+		id := g.tx(MsgSpec{T: "did.Update", F: map[string]string{"did": did, "from": from}, Doc: doc, Proof: &ProofSpec{Key: k, MethodID: mid, Seq: "cur"}})
+		g.didTx = append(g.didTx, didRef{id, did})
+		if g.plan.Did[ctl] == nil {
+			id = g.tx(MsgSpec{T: "did.Create", F: map[string]string{"did": ctl, "from": from}, Doc: g.didDoc(ctl, []int{ci}, 0), Proof: &ProofSpec{Key: ci, MethodID: fmt.Sprintf("%s#key%d", ctl, ci), Seq: "0"}})
+			g.didTx = append(g.didTx, didRef{id, ctl})
+		}
+		cm := fmt.Sprintf("%s#key%d", ctl, ci)
+		if ks, ms := g.authKeys(ctl); len(ks) > 0 {
+			ci, cm = ks[0], ms[0]
+		}
+		// the controller's key, naming the controller's own method, over this DID's content and sequence
+		if r.Chance(0.5) {
+			upd(&ProofSpec{Key: ci, MethodID: cm, Seq: "cur"}, g.didDoc(did, []int{ci}, 0))
+		} else {
+			g.tx(MsgSpec{T: "did.Deactivate", F: map[string]string{"did": did, "from": from}, Proof: &ProofSpec{Key: ci, MethodID: cm, Seq: "cur"}})
+		}
 	case 26, 27: // two methods whose ids end alike after a '#': "<did>#backup#keyK" (another key, no authentication method,
 		// listed first) and "<did>#keyK" (the authentication key). Whoever resolves ids by their last segment confuses them.
 		shadow := VMSpec{Id: did + "#backup#key" + fmt.Sprint(k), Type: "EcdsaSecp256k1VerificationKey2019", Controller: did, Key: other}
@@ -1477,7 +1513,11 @@ func (g *Gen) famPnft() {
 		if r.Chance(0.07) {
 			creator = strings.ToUpper(creator) // bech32's other legal spelling: signs as the same account, is stored as written
 		}
-		g.tx(M("pnft.CreateDenom", "id", g.idFrom(denomPool, adv), "name", "name", "symbol", "SYM", "desc", "d", "uri", "u", "uri_hash", "h", "data", "{}", "creator", creator))
+		data := "{}"
+		if r.Chance(0.25) {
+			data = `{"issuer":"` + g.addr(r.Intn(6)) + `"}` // free-form data may mention anybody
+		}
+		g.tx(M("pnft.CreateDenom", "id", g.idFrom(denomPool, adv), "name", "name", "symbol", "SYM", "desc", "d", "uri", "u", "uri_hash", "h", "data", data, "creator", creator))
 	default:
 		d := dens[r.Intn(len(dens))]
 		owner := g.plan.Denoms[d].Owner
